@@ -376,6 +376,72 @@ def E3() -> bool:
     return run(body_E3, "X", {})
 
 
+# -- E4: the caller's own fields cannot displace eliot's bookkeeping fields -------------------
+_USER_VALUES = {"task_uuid": "user-uuid", "task_level": "user-level", "timestamp": "yesterday", "action_status": "user-status", "action_type": "user:type"}
+
+
+def body_E4(ctx):
+    """Application fields whose *names* coincide with the fields every message carries
+    (task_uuid, task_level, timestamp, plus action_status/action_type on action messages):
+    whatever the application passes, the emitted message carries eliot's own values."""
+    from eliot import start_action, log_message, log_call, current_action, Message
+
+    received = []
+    _output.Logger._destinations.add(received.append)
+    api = ctx.choose(7, "API the colliding fields go through")
+    cand = ["task_uuid", "task_level", "timestamp", "action_status", "action_type"]
+    if api in (0, 5):  # start_action(**fields) / log_call parameters: action_type is a parameter of its own
+        cand = cand[:4]
+    if api in (2, 3, 4):  # plain messages: only the three fields every message carries
+        cand = cand[:3]
+    keys = [k for k in cand if ctx.flag("the application uses a field called %s" % k)]
+    if not keys:
+        return
+    user = {k: _USER_VALUES[k] for k in keys}
+    with start_action(action_type="c02:outer"):
+        if api == 0:
+            with start_action(action_type="c02:a", **user):
+                log_message("c02:in")
+        elif api == 1:
+            with start_action(action_type="c02:a") as a:
+                a.add_success_fields(**user)
+        elif api == 2:
+            log_message("c02:m", **user)
+        elif api == 3:
+            current_action().log("c02:m", **user)
+        elif api == 4:
+            Message.new(message_type="c02:m", **user).bind(**user).write()
+        elif api == 5:
+            src = "def f(%s):\n    return 1\n" % ", ".join(keys)
+            ns = {}
+            exec(src, ns)
+            log_call(ns["f"])(**user)
+        else:
+            a = start_action(action_type="c02:a")
+            a.finish()
+            b = start_action(action_type="c02:b")
+            with b.context():
+                b.add_success_fields(**user)
+            b.finish()
+        log_message("c02:after")
+    placement_oracle(ctx, received, "application fields named %r via API %d" % (keys, api))
+    ctx.check(len({m["task_uuid"] for m in received}) == 1, "one task was run, the stream names the tasks %r", sorted({str(m["task_uuid"]) for m in received}))
+    for m in received:
+        if "action_type" in m:
+            ctx.check(m["action_type"] in ("c02:outer", "c02:a", "c02:b") or m["action_type"].endswith(".f"), "an action message carries the application's value as its action_type: %r", m)
+    ctx.nontrivial((api, tuple(keys)))
+    ctx.reached()
+    ctx.sample({"api": api, "colliding_fields": keys, "messages": len(received)})
+
+
+def E4() -> bool:
+    """
+    post: _
+    """
+    return run(body_E4, "X", {})
+
+
+
 def _e2_shards(tier):
     from props import c05
 
@@ -441,5 +507,7 @@ OBLIGATIONS = [
         timeout={"quick": 100, "thorough": 600},
         bounds={"quick": "2 tasks x 3 awaits, 3 tasks x 2 awaits, 2 tasks entering the shared parent's context(); all gate orders", "thorough": "3 tasks x 3 awaits"},
     ),
+    Ob("E4", E4, body_E4, "X", desc="application fields named task_uuid / task_level / timestamp / action_status / action_type never displace eliot's own values", functions=["Action._start", "Action.finish", "Action.log", "Message._freeze", "log_call", "_start_action_with_fields"],
+       timeout={"quick": 100, "thorough": 300}, bounds={"quick": "7 APIs (start_action fields, add_success_fields, log_message, Action.log, Message.new/bind/write, log_call parameter names, add_success_fields inside context()) x every non-empty subset of the colliding names applicable to that API"}),
     Ob("L7", L7, body_L7, "S", desc="TaskLevel order = tree pre-order", functions=["TaskLevel.__lt__", "__le__", "__gt__", "__ge__", "__eq__", "__hash__", "next_sibling", "child", "parent"], bounds={"quick": "levels of depth <= 4 (+2), any positions j<k, m>=1"}, timeout={"quick": 120, "thorough": 300}),
 ]
